@@ -39,6 +39,34 @@ Theorem C11_set_program_accepts : forall progs sid pname fields p,
 Proof. exact set_program_accepts. Qed.
 Print Assumptions C11_set_program_accepts.
 
+(* the same for an update of the running program's fields: success is exactly "every name is
+   controllable and there are at most 255 of them" (the message counts them in 8 bits) *)
+Theorem C11_update_field_succeeds : forall sc sid fields bytes,
+  update_field_msg sc sid fields = Ok bytes ->
+  forallb (controllable sc) (map fst fields) = true /\
+  N.of_nat (length fields) <= 255 /\
+  exists l ups,
+    map snd l = map snd fields /\
+    Forall2 (fun f rv => sc_get sc (fst f) = Some (fst rv)) fields l /\
+    ser_updates l = Ok ups /\
+    bytes = ser_header T_UPDATE (12 + 13 * N.of_nat (length fields)) sid ++
+            enc_le 4 (N.of_nat (length fields)) ++ ups.
+Proof. exact update_field_succeeds. Qed.
+Print Assumptions C11_update_field_succeeds.
+
+Theorem C11_update_field_accepts : forall sc sid fields,
+  control_encodable sc ->
+  forallb (controllable sc) (map fst fields) = true ->
+  N.of_nat (length fields) <= 255 ->
+  exists bytes, update_field_msg sc sid fields = Ok bytes.
+Proof. exact update_field_accepts. Qed.
+Print Assumptions C11_update_field_accepts.
+
+Theorem C11_update_field_too_many : forall sc sid fields,
+  255 < N.of_nat (length fields) -> update_field_msg sc sid fields = Err.
+Proof. exact update_field_too_many. Qed.
+Print Assumptions C11_update_field_too_many.
+
 (* a refused command transmits nothing; an accepted one transmits exactly one message *)
 Theorem C11_refused_sends_nothing : forall cfg send_ok fl rep k p fields,
   set_program_msg (cfg_progs cfg) (f_sid fl) p fields = Err ->
@@ -55,11 +83,36 @@ Proof.
 Qed.
 Print Assumptions C11_accepted_sends_one.
 
+Theorem C11_refused_update_sends_nothing : forall cfg send_ok fl rep k p pr fields,
+  find_prog (cfg_own cfg) p = Some pr ->
+  update_field_msg (p_scope pr) (f_sid fl) fields = Err ->
+  exec_cmd cfg send_ok fl rep k (UpdateField p fields) = Some (fl, [ECmd false], 0%nat).
+Proof. intros cfg send_ok fl rep k p pr fields Hp H. unfold exec_cmd. rewrite Hp, H. reflexivity. Qed.
+Print Assumptions C11_refused_update_sends_nothing.
+
+Theorem C11_accepted_update_sends_one : forall cfg send_ok fl rep k p pr fields bytes,
+  find_prog (cfg_own cfg) p = Some pr ->
+  update_field_msg (p_scope pr) (f_sid fl) fields = Ok bytes -> send_ok k = true ->
+  exec_cmd cfg send_ok fl rep k (UpdateField p fields) =
+  Some (fl, [ESend (f_addr fl) bytes; ECmd true], 1%nat).
+Proof.
+  intros cfg send_ok fl rep k p pr fields bytes Hp H Hs. unfold exec_cmd, do_send. rewrite Hp, H, Hs. reflexivity.
+Qed.
+Print Assumptions C11_accepted_update_sends_one.
+
 Example C11_example :
   let sc := [([99], Control 0 TNone false); ([114], Report 0 TNone true); ([67; 119; 110; 100], Implicit 4 TNone)] in
   controllable sc [99] = true /\ controllable sc [114] = false /\ controllable sc [67; 119; 110; 100] = true /\
   controllable sc [95; 95; 120] = false /\ controllable sc [122] = false.
 Proof. vm_compute. repeat split; reflexivity. Qed.
+
+Example C11_update_example :
+  let sc := [([99], Control 0 TNone false); ([114], Report 0 TNone true); ([67; 119; 110; 100], Implicit 4 TNone)] in
+  (exists bytes, update_field_msg sc 7 [([99], 5); ([67; 119; 110; 100], 9)] = Ok bytes /\ length bytes = 38%nat) /\
+  update_field_msg sc 7 [([99], 5); ([114], 9)] = Err /\
+  update_field_msg sc 7 (repeat ([99], 5) 256) = Err /\
+  (exists bytes, update_field_msg sc 7 (repeat ([99], 5) 255) = Ok bytes).
+Proof. vm_compute. repeat split; try reflexivity; eexists; try split; reflexivity. Qed.
 
 (* translator obligations (lib/gen_statespace.py reads the structs, statics and mutable bindings of the
    modelled code on every run): the code has the state the model represents and no other *)
